@@ -48,4 +48,34 @@ PROPS = {
     },
 }
 
+def judge_c13(d):
+    a, b = d["impl"], d["model"]
+    if a == "TRAP" and b != "TRAP":
+        return "implementation violated an internal unchecked assumption / overflowed on a state where the model raises none"
+    if b == "TRAP" or a == "TRAP":
+        return None
+    def val(s):
+        return s.split("|", 1)[1].split() if "|" in s else s.split()
+    if val(a) != val(b):
+        return "implementation output differs from the textbook Poseidon / overwrite-mode sponge specification"
+    return None
+
+
+PROPS["C13"] = {
+    "lean_modules": ["P2.Props.C13Gen"],
+    "audit_module": "P2.Audit.C13",
+    "harness_prop": "c13",
+    "profile": "verif",
+    "canon": canon_trap,
+    "judge": judge_c13,
+    "trusted_base": KERNEL_TB + [
+        "modelled, not verified: control flow of poseidon.rs / poseidon_goldilocks.rs / hashing.rs / challenger.rs transcribed by hand (P2/Model/PoseidonFast.lean bit-exact, Poseidon.lean = textbook spec, Sponge.lean, Challenger.lean)",
+        "Keccak configuration and SIMD lanes not modelled (partial); no packed Poseidon is compiled in this tree",
+    ],
+    "level_text": "Lean 4: textbook Poseidon specification built from the tables extracted from /repo each run; kernel-checked facts on those tables (canonical round constants, table shapes, small MDS entries, frequency-domain blocks = circulant on the basis); the optimised routines' bit-exact model and the sponge/challenger state machines tied to the Rust code by correspondence on canonical, non-canonical and carry-shaped states and random absorb/squeeze histories (native and in-circuit challenger)",
+    "level_note": "Trusted: Lean kernel, standard axioms, extract.py, hand transcription tied by differential correspondence against the *textbook* model (so agreement is with the specification). Theorems fast=spec for all states and challenger refinement are being added (see DESIGN.md §C13); until then that part rests on the correspondence. SIMD/Keccak partial.",
+    "assumptions": ["harness built with debug-assertions and overflow-checks"],
+    "rule": "layer/permutation requests on all-max, half-ones, non-canonical, boundary, canonical and mixed states; sponge for every length 0..40 and longer; random challenger histories (native) and in-circuit challenger histories through witness generation; distinct = distinct request lines",
+}
+
 NOT_CLAIMED = {}
